@@ -132,6 +132,9 @@ pub struct Net {
     /// a send never completes in its first poll (models a transport whose send takes time, so that
     /// overlapping sends to one peer are observable whatever the capacity)
     pub send_yields: bool,
+    /// wall-clock perturbation: after a completed send of at least .0 bytes the sending party stalls
+    /// for .1 microseconds of real time (nothing in the protocol may depend on the clock)
+    pub stall_after_send: Option<(usize, u64)>,
     held_wakers: Vec<Waker>,
 }
 
@@ -171,6 +174,7 @@ impl Net {
             progress: 0,
             eager: false,
             send_yields: false,
+            stall_after_send: None,
             held_wakers: vec![],
         }
     }
@@ -392,6 +396,12 @@ impl Future for SendFut<'_> {
         }
         net.out_send[me][to] -= 1;
         self.done = true;
+        if let Some((min_len, us)) = net.stall_after_send {
+            if len >= min_len {
+                drop(net);
+                std::thread::sleep(std::time::Duration::from_micros(us));
+            }
+        }
         Poll::Ready(Ok(()))
     }
 }
